@@ -73,6 +73,12 @@ func BuildMsg(n *wire.N, h Hist) (util.Message, error) {
 		if err := setScalars(m, n); err != nil {
 			return nil, err
 		}
+		if h.Variant == 1 {
+			// the command is decided last (a flow-mod built as an add and then sent as a modify or a
+			// delete): the adders see the constructor's command
+			m.Command = of.NewFlowMod().Command
+			defer func() { m.Command = uint8(u(n, "Command")) }()
+		}
 		if h.LenBetween {
 			m.Len()
 		}
@@ -94,6 +100,12 @@ func BuildMsg(n *wire.N, h Hist) (util.Message, error) {
 		m := of.NewGroupMod()
 		if err := setScalars(m, n); err != nil {
 			return nil, err
+		}
+		if h.Variant == 1 {
+			// command and type are decided last: the adders see the constructor's values
+			fresh := of.NewGroupMod()
+			m.Command, m.Type = fresh.Command, fresh.Type
+			defer func() { m.Command, m.Type = uint16(u(n, "Command")), uint8(u(n, "Type")) }()
 		}
 		for _, c := range n.L["Buckets"] {
 			b, err := BuildBucket(c, h)
@@ -229,6 +241,9 @@ func BuildMsg(n *wire.N, h Hist) (util.Message, error) {
 				return nil, err
 			}
 			ba := &of.BundleAdd{BundleID: uint32(u(vd, "BundleID")), Flags: uint16(u(vd, "Flags")), Message: inner}
+			if h.Variant == 1 && len(vd.L["Properties"]) == 0 {
+				ba.Properties = []of.BundlePropertyExperimenter{} // a property list that is empty but not nil
+			}
 			for _, pr := range vd.L["Properties"] {
 				if len(pr.B["Data"]) > 0 {
 					return nil, ErrNoAPI // the property's data has no exported field or setter
